@@ -236,14 +236,21 @@ def case_kernel_meaning(case):
     from snaxc.dialects import kernel
     from snaxc.transforms.convert_kernel_to_linalg import ConvertKernelToLinalg
 
-    kname, widths = case
+    kname, widths = case[:2]
+    post = case[2] if len(case) > 2 else None  # an operation fused behind the kernel op in the same body
     KCLS = {"mul": kernel.MulOp, "add": kernel.AddOp, "mac": kernel.MacOp, "qmac": kernel.QMacOp}
 
     def expanded():
+        from xdsl.dialects import arith
+
         tys = [IntegerType(w) for w in widths]
         b = Block(arg_types=tys)
         k = KCLS[kname](operands=list(b.args[:-1]), result_types=[tys[-1]])
-        b.add_ops([k, linalg.YieldOp(k)])
+        if post is None:
+            b.add_ops([k, linalg.YieldOp(k)])
+        else:
+            p = {"muli_self": arith.MuliOp, "addi_self": arith.AddiOp, "subi_acc": arith.SubiOp}[post](k.results[0], b.args[-1] if post == "subi_acc" else k.results[0])
+            b.add_ops([k, p, linalg.YieldOp(p)])
         srcs = [test.TestOp(result_types=[MemRefType(t, [16])]) for t in tys]
         m = builtin.AffineMapAttr(AffineMap.identity(1))
         g = linalg.GenericOp([s.res[0] for s in srcs[:-1]], [srcs[-1].res[0]], Region(b), [m] * len(tys), [linalg.IteratorTypeAttr.parallel()])
@@ -263,18 +270,35 @@ def case_kernel_meaning(case):
             return a[2] + ext(a[0]) * ext(a[1])
         return a[4] + (ext(a[0]) - a[2]) * (ext(a[1]) - a[3])
 
+    def full(a):
+        r = ref(a)
+        if post == "muli_self":
+            return r * r
+        if post == "addi_self":
+            return r + r
+        if post == "subi_acc":
+            return r - a[-1]
+        return r
+
+    def h_kernel(I, op):
+        # a kernel op the pass left in place is evaluated by its meaning
+        I.set(op.results[0], ref([I.get(o) for o in op.operands] + [I.get(op.parent_block().args[-1])]))
+
+    KH = {f"kernel.{n}": h_kernel for n in ("mul", "add", "mac", "qmac")}
+
     def fn():
         g = expanded()
         args = [z3.BitVec(f"x{i}", w) for i, w in enumerate(widths)]
-        got = eval_body(g.body.block, args)
+        got = eval_body(g.body.block, args, KH)
         E = eng()
-        E.oblige("expansion:no_kernel_left", z3.BoolVal(not [o for o in g.body.block.ops if o.name.startswith("kernel.")]))
-        E.oblige(f"expansion:computes_kernel_meaning|kernel={kname}", got == ref(args), dict(expanded=body_text(g.body.block)))
+        if post is None:
+            E.oblige("expansion:no_kernel_left", z3.BoolVal(not [o for o in g.body.block.ops if o.name.startswith("kernel.")]))
+        E.oblige(f"expansion:computes_kernel_meaning|kernel={kname}" + ("|fused_body" if post else ""), got == full(args), dict(expanded=body_text(g.body.block), fused=post))
 
     def replay(f):
         g = expanded()
         args = [z3.BitVecVal(mval(f["model"], f"x{i}"), w) for i, w in enumerate(widths)]
-        a, b = irsym.bvval(eval_body(g.body.block, args)), irsym.bvval(z3.simplify(ref(args)))
+        a, b = irsym.bvval(eval_body(g.body.block, args, KH)), irsym.bvval(z3.simplify(full(args)))
         return a != b, dict(kernel=kname, widths=widths, inputs=[mval(f["model"], f"x{i}") for i in range(len(widths))], expanded=a, meaning=b,
                             body=body_text(g.body.block))
 
@@ -609,6 +633,13 @@ def run(chk):
             ws = rnd.sample(ws, 600)
         for b in ws:
             add(b)
+    # operand swaps of the binary ops of every canonical body (one or two ops swapped): fine for addi/muli, not for subi
+    for b in canon:
+        bins = [i for i, o in enumerate(b[1]) if o[0] != "extsi"]
+        for r_ in (1, 2):
+            for sub in itertools.combinations(bins, r_):
+                ops = [tuple(o) if i not in sub else (o[0], o[2], o[1]) for i, o in enumerate(b[1])]
+                add((b[0], ops, b[2]))
     # qmac: canonical + single-edge rewirings
     for b in canon:
         if len(b[1]) >= 4:
@@ -617,7 +648,7 @@ def run(chk):
                 if mb:
                     add(mb)
     if quick and len(bodies) > 1600:
-        keep = [b for b in bodies if b in CANON_SET or len(b[1]) <= 1]
+        keep = [b for b in bodies if b in CANON_SET or len(b[1]) <= 1 or len(b[1]) >= 5]
         ks = set(keep)
         rest = [b for b in bodies if b not in ks]
         bodies = keep + rnd.sample(rest, max(0, 1600 - len(keep)))
@@ -626,6 +657,9 @@ def run(chk):
     kcases = [(k, (w, w, w)) for k in ("mul", "add", "mac") for w in WIDTHS]
     kcases += [("mac", (wi, wi, wo)) for wi, wo in ((8, 16), (8, 32), (16, 32), (8, 64), (16, 64), (32, 64))]
     kcases += [("qmac", (wi, wi, wo, wo, wo)) for wi, wo in ((8, 16), (8, 32), (16, 32), (8, 64), (16, 64), (32, 64))]
+    # kernel op with an operation fused behind it in the same body (the body is not just the kernel)
+    kcases += [(k, (w, w, w), p) for k in ("mul", "add", "mac") for w in (8, 32) for p in ("muli_self", "addi_self", "subi_acc")]
+    kcases += [("qmac", (8, 8, 32, 32, 32), p) for p in ("muli_self", "subi_acc")] + [("mac", (8, 8, 32), "muli_self")]
     if only in (None, "meaning"):
         chk.add_results("kernel_expansion_vs_meaning", pmap(case_kernel_meaning, kcases))
     if only in (None, "rescale"):
